@@ -310,6 +310,34 @@ def lean_affine(src):
     return _lean_file("Affine.lean")
 
 
+def registry_memo(src):
+    """C13/C17/C19: no memoised function reads the name/symbol registries (a memoised lookup would keep answering from
+    the bindings of the moment it was first asked, whatever is declared afterwards), directly or through a function of
+    the same class that does."""
+    prog = Program(src)
+    REG = ("_by_name", "_by_symbol")
+    readers = {}
+    for f in prog.all_functions():
+        for n in ast.walk(f.node):
+            if isinstance(n, ast.Attribute) and n.attr in REG:
+                readers.setdefault(f.qual, set()).add(n.attr)
+    # one level of calls: a memoised function calling a reader (cls.resolve_symbol(...), Unit.named(...))
+    short = {q.split(".")[-1]: q for q in readers}
+    bad = []
+    for f in prog.all_functions():
+        if not f.memo:
+            continue
+        if f.qual in readers:
+            bad.append("%s reads %s" % (f.qual, sorted(readers[f.qual])))
+            continue
+        for c in _calls(f.node):
+            last = c.split(".")[-1]
+            if last in short and last not in ("__init__", "__new__"):
+                bad.append("%s calls %s" % (f.qual, short[last]))
+    oid = "registry/static:no-memoised-function-reads-the-name-registries"
+    return {oid: {"status": "discharged" if not bad else "refuted", "note": "; ".join(sorted(set(bad))), "ms": 0, "backend": "static-scan", "complete": True}}
+
+
 def core_state(src):
     """the library keeps no mutable class-level or module-level state besides the intern tables and
     registries the contracts talk about (any other cache makes results depend on the call history)"""
